@@ -453,7 +453,7 @@ func (m *mutableMap) Set(key, val Value) Map {
 		if diff = Compare(bucket[mid][0], key); diff == 0 {
 			modify := make([][2]Value, len(bucket))
 			copy(modify, bucket)
-			bucket[mid][1] = val
+			modify[mid][1] = val
 
 			m.value[hash] = modify
 			break
